@@ -52,7 +52,7 @@ def observe_case(spec):
     from lark import Lark
     from lark.exceptions import GrammarError, UnexpectedInput, ParseError
     G, ka, ph = spec['G'], spec['ka'], spec['ph']
-    gtext = E.grammar_text(G)
+    gtext = spec.get('gtext') or E.grammar_text(G)        # (templates: the text uses them, G is the grammar written out by hand)
     case = {'gtext': gtext, 'G': E.grammar_json(G, ka, ph), 'ka': ka, 'ph': ph, 'inputs': [], 'skip': '', 'cyclic': False,
             'family': spec.get('family', 'F_ebnf'), 'spec': spec}
     parsers = {}
@@ -160,6 +160,43 @@ def specs(tier, rng, explicit=False):
     return out
 
 
+def template_specs():
+    """templates whose instances share their argument symbols: a ! template next to plain ones, filtered terminals as arguments.
+    G is the grammar with every instance written out by hand (alias = the template's name, as lark labels the nodes)."""
+    T, R = E.tok, E.ref
+    A, B, C_, D = T('A'), T('B'), T('_C'), T('D')
+
+    def rule(name, alts, keepall=False, expand1=False):
+        return {'name': name, 'expand1': expand1, 'keepall': keepall, 'alts': [{'alias': al, 'body': b} for al, b in alts]}
+    out = []
+    cases = [
+        ('start: a{_C}\n!a{x}: x b{x}\nb{x}: x A\n',
+         [rule('start', [('', R('a_c'))]), rule('a_c', [('a', E.seq([C_, R('b_c')]))], keepall=True), rule('b_c', [('b', E.seq([C_, A]))])]),
+        ('start: a{_C} b{_C}\n!a{x}: x b{x}\nb{x}: x A\n',
+         [rule('start', [('', E.seq([R('a_c'), R('b_c')]))]), rule('a_c', [('a', E.seq([C_, R('b_c')]))], keepall=True), rule('b_c', [('b', E.seq([C_, A]))])]),
+        ('start: b{_C} a{_C}\n!a{x}: x b{x}\nb{x}: x A\n',
+         [rule('start', [('', E.seq([R('b_c'), R('a_c')]))]), rule('a_c', [('a', E.seq([C_, R('b_c')]))], keepall=True), rule('b_c', [('b', E.seq([C_, A]))])]),
+        ('start: p{"d", A} q{"d"}\n!p{x, y}: x y q{x}\nq{x}: x+ B\n',
+         [rule('start', [('', E.seq([R('p_d'), R('q_d')]))]), rule('p_d', [('p', E.seq([D, A, R('q_d')]))], keepall=True), rule('q_d', [('q', E.seq([E.rep(D, 1, -1), B]))])]),
+        ('start: w{_C}\nw{x}: k{x} [x] A\n!k{x}: x B?\n',
+         [rule('start', [('', R('w_c'))]), rule('w_c', [('w', E.seq([R('k_c'), E.maybe(C_), A]))]), rule('k_c', [('k', E.seq([C_, E.opt(B)]))], keepall=True)]),
+    ]
+    import itertools
+    words = [w for k in range(1, 6) for w in itertools.product(['A', 'B', '_C', 'D'], repeat=k)]
+    for text, rules in cases:
+        G = {'rules': rules}
+        ins = set()
+        rng = random.Random(7)
+        for _ in range(60):
+            sn = E.sample_sentence(G, rng, maxlen=8)
+            if sn is not None:
+                ins.add(tuple(sn))
+        ins |= set(rng.sample(words, 30))
+        for ph in (True, False):
+            out.append({'G': G, 'gtext': text + E.TERM_DEFS, 'ka': False, 'ph': ph, 'inputs': sorted(ins), 'cyk': False, 'explicit': False, 'family': 'F_template', 'must': True})
+    return out
+
+
 def cyk_name_specs():
     """CYK binarises long alternatives with generated helper names: alternatives whose symbol names run together to the
     same string (t k_n v / t k n_v) must still be told apart"""
@@ -255,6 +292,7 @@ def run(pid, tier, seed, replay):
         sps = specs(tier, rng, explicit=(pid == 'C04'))
         if pid == 'C03':
             sps += cyk_name_specs()
+            sps += template_specs()
             from . import mtok
             sps += mtok.specs(C.scale(400 if tier == 'quick' else 4000), rng)
         cases = C.pmap(observe_case, sps)
